@@ -56,8 +56,37 @@ def check(ctx, cases):
     return fails
 
 
+def cleanup_conformance(ctx, maxlen):
+    """spec/CleanUp.tla (what cleanup_desc removes at the two ends of a block) against tract.desc - drift only."""
+    from .. import impl
+    consts = {"MaxLen": maxlen, "Fault": "none", "EmitCases": False}
+    invs = ["LoopIsFunction", "FixedPoint", "EndsClean", "OnlyEndsTouched", "KeepsWords"]
+    ctx.tlc("CleanUp", consts, invariants=invs, properties=["Shrinks"])
+    ctx.tlc("CleanUp", dict(consts, MaxLen=3), invariants=invs, coverage=True, count=False)
+    ctx.require_actions(["Choose", "Round", "Stop"])
+    ctx.tlc("CleanUp", dict(consts, MaxLen=5, Fault="stale_lower"), invariants=invs, expect_violation="stale_lower", count=False)
+    res = ctx.tlc("CleanUp", dict(consts, EmitCases=True), invariants=["EmitCase"], workers=1, count=False)
+    cases = []
+    for i, c in enumerate(res.cases):
+        if ctx.tier != "thorough" and ctx.rng.random() > 0.35:
+            continue
+        # the block follows 'Sec 14:' directly; texts that would read as another section / Twp/Rge do not occur
+        # (the only words are a foreign word and the culled words)
+        cases.append({"id": "k%d" % i, "kind": "cleanup", "abs": {"input": c["input"], "clean": c["clean"]},
+                      "args": {"text": impl.clean_render(c["input"], i)}})
+    obs = ctx.impl_map("cleanup_block", cases)
+    recs = [{"id": c["id"], "input": c["abs"]["input"], "obs": obs[c["id"]].get("obs") or [], "exc": obs[c["id"]].get("exc", "none")}
+            for c in cases if c["id"] in obs]
+    _, drifts = ctx.validate("CleanUpTrace", recs, dict(consts, MaxLen=1), invariants=("Drift",))
+    if drifts:
+        c = next(x for x in cases if x["id"] == drifts[0])
+        ctx.add_drift(len(drifts), {"block": c["args"]["text"], "desc": obs[c["id"]].get("raw"), "model": c["abs"]["clean"]})
+    ctx.notes["cleanup_model_cases"] = len(recs)
+
+
 def run(ctx):
     thorough = ctx.tier == "thorough"
+    cleanup_conformance(ctx, 5 if thorough else 4)
     # (3 groups x 2 section groups: 262 560 documents; 3 x 3 would be 19 million)
     base = {"MaxGroups": 3 if thorough else 2, "MaxSecs": 2, "TRIds": {1, 2}}
     invs = ["OneTractPerSection", "ReadingOrder", "Bounded", "PrettyRoundTrip", "PrettyHeaders"]
